@@ -1,7 +1,8 @@
 (* C11 proofs.  Route: every statement about all days is reduced, by linear arithmetic
-   on (era, doe), to the kernel-checked exhaustive sweeps over ONE 400-year era
-   (SweepA/B/C) of the doe-only part of the code. *)
-From Tetl Require Import Lib.Base C11.Model C11.Spec C11.Core C11.SweepA C11.SweepB C11.SweepC.
+   on (era, doe), to the three facts about the doe-only part of the code proved in Era.v
+   (sweepA_spec, sweepB_spec, sweepC_spec: by arithmetic on the year of the era plus finite checks
+   over the 366 days of a year). *)
+From Tetl Require Import Lib.Base C11.Model C11.Spec C11.Core C11.Era.
 From Coq Require Import ZifyBool.
 Local Open Scope Z_scope.
 Ltac Zify.zify_post_hook ::= Z.to_euclidean_division_equations.
